@@ -230,8 +230,11 @@ def spec_number(sp, e):
     return float(e) if sp == 'log' else p10(e)
 
 
-def same(x, y):
-    return x == x and abs(x - y) <= REL * max(abs(x), abs(y))
+def same(x, y, sp='linear'):
+    """Linear-space numbers (powers of ten) relatively to 1e-12; log-space numbers (small integers, possibly 0)
+    to 1e-12 of max(1, |x|): log10 of a getter's 0.9999999999999999 is -4.8e-17, not 0."""
+    floor = 1.0 if sp == 'log' else 0.0
+    return x == x and abs(x - y) <= REL * max(abs(x), abs(y), floor)
 
 
 def consistent(got):
@@ -243,7 +246,7 @@ def consistent(got):
         x = got['val'].get(g['n'])
         if x is not None:
             want = math.log10(x) if g['psp'] == 'log' and x > 0 else x
-            if not same(g['v'], want):
+            if not same(g['v'], want, g['psp']):
                 return 'fit_values', '%s: reported %r, model value %r in %s space is %r' % (g['n'], g['v'], x, g['psp'], want)
     return None, ''
 
@@ -271,13 +274,13 @@ def compare(exp, got, full=True):
     if [(e['n'], e['nsp']) for e in ef] != [(g['n'], g['nsp']) for g in gf]:
         return 'fit_names', 'expected %r got %r' % ([(e['n'], e['nsp']) for e in ef], [(g['n'], g['nsp']) for g in gf])
     for e, g in zip(ef, gf):
-        if not same(g['v'], spec_number(e['vsp'], e['v'])):
+        if not same(g['v'], spec_number(e['vsp'], e['v']), e['vsp']):
             return 'fit_values', '%s: expected %r (%s space) got %r' % (e['n'], spec_number(e['vsp'], e['v']), e['vsp'], g['v'])
         lo, hi = spec_number(e['bsp'], e['lo']), spec_number(e['bsp'], e['hi'])
-        if not (same(g['lo'], lo) and same(g['hi'], hi)):
+        if not (same(g['lo'], lo, e['bsp']) and same(g['hi'], hi, e['bsp'])):
             return 'fit_boundaries', '%s: expected (%r,%r) (%s space) got (%r,%r)' % (e['n'], lo, hi, e['bsp'], g['lo'], g['hi'])
         pa, pb = spec_number(e['psp'], e['pa']), spec_number(e['psp'], e['pb'])
-        if not (g['pk'] == e['pk'] and g['psp'] == e['psp'] and same(g['pa'], pa) and same(g['pb'], pb)):
+        if not (g['pk'] == e['pk'] and g['psp'] == e['psp'] and same(g['pa'], pa, e['psp']) and same(g['pb'], pb, e['psp'])):
             return 'fit_priors', '%s: expected %s(%r,%r) got %s(%r,%r)' % (e['n'], e['pk'], pa, pb, g['pk'], g['pa'], g['pb'])
     if list(exp['der']) != list(got['der']):
         return 'derived_names', 'expected %r got %r' % (exp['der'], got['der'])
